@@ -74,7 +74,8 @@ type vfC29Op struct {
 }
 
 type vfC29Case struct {
-	Ops []vfC29Op `json:"ops"`
+	Codec int       `json:"codec,omitempty"` // index into vfC29TrackCodecs
+	Ops   []vfC29Op `json:"ops"`
 }
 
 type vfC29Rng uint32
@@ -272,24 +273,36 @@ type vfC29Binding struct {
 	ctx    *baseTrackLocalContext
 }
 
-func vfC29Codecs(pos int, pt uint8) []RTPCodecParameters {
+// vfC29TrackCodecs are the codecs a case's track can have (index = vfC29Case.Codec).
+var vfC29TrackCodecs = []RTPCodecCapability{
+	{MimeType: MimeTypeVP8, ClockRate: 90000},
+	{MimeType: MimeTypePCMU, ClockRate: 8000},
+	{MimeType: MimeTypePCMA, ClockRate: 8000},
+	{MimeType: MimeTypeOpus, ClockRate: 48000, Channels: 2},
+}
+
+// vfC29Codecs is the negotiated codec table of one binding context: the track's codec at payload
+// type pt (any value 0..127, incl. the static types 0/8/9/13 and 127) at position pos among
+// three other codecs; pos < 0 leaves the track's codec out.
+func vfC29Codecs(mine RTPCodecCapability, pos int, pt uint8) []RTPCodecParameters {
 	others := []RTPCodecParameters{
-		{RTPCodecCapability: RTPCodecCapability{MimeType: MimeTypeH264, ClockRate: 90000, SDPFmtpLine: "level-asymmetry-allowed=1;packetization-mode=1;profile-level-id=42e01f"}, PayloadType: PayloadType((int(pt)+1-96)%32 + 96)},
-		{RTPCodecCapability: RTPCodecCapability{MimeType: MimeTypeOpus, ClockRate: 48000, Channels: 2}, PayloadType: PayloadType((int(pt)+2-96)%32 + 96)},
-		{RTPCodecCapability: RTPCodecCapability{MimeType: MimeTypeVP9, ClockRate: 90000, SDPFmtpLine: "profile-id=0"}, PayloadType: PayloadType((int(pt)+3-96)%32 + 96)},
+		{RTPCodecCapability: RTPCodecCapability{MimeType: MimeTypeH264, ClockRate: 90000, SDPFmtpLine: "level-asymmetry-allowed=1;packetization-mode=1;profile-level-id=42e01f"}, PayloadType: PayloadType((int(pt) + 1) % 128)},
+		{RTPCodecCapability: RTPCodecCapability{MimeType: MimeTypeG722, ClockRate: 8000}, PayloadType: PayloadType((int(pt) + 2) % 128)},
+		{RTPCodecCapability: RTPCodecCapability{MimeType: MimeTypeVP9, ClockRate: 90000, SDPFmtpLine: "profile-id=0"}, PayloadType: PayloadType((int(pt) + 3) % 128)},
 	}
 	if pos < 0 {
 		return others
 	}
-	mine := RTPCodecParameters{RTPCodecCapability: RTPCodecCapability{MimeType: MimeTypeVP8, ClockRate: 90000}, PayloadType: PayloadType(pt)}
 	pos %= len(others) + 1
 	out := append([]RTPCodecParameters{}, others[:pos]...)
-	out = append(out, mine)
+	out = append(out, RTPCodecParameters{RTPCodecCapability: mine, PayloadType: PayloadType(pt)})
 	return append(out, others[pos:]...)
 }
 
 func vfC29Run(v *vfT, c vfC29Case) {
-	track, err := NewTrackLocalStaticRTP(RTPCodecCapability{MimeType: MimeTypeVP8, ClockRate: 90000}, "video", "pion")
+	trackCodec := vfC29TrackCodecs[((c.Codec%len(vfC29TrackCodecs))+len(vfC29TrackCodecs))%len(vfC29TrackCodecs)]
+	v.Label("track-codec:" + trackCodec.MimeType)
+	track, err := NewTrackLocalStaticRTP(trackCodec, "track", "pion")
 	if err != nil {
 		v.Skip("NewTrackLocalStaticRTP: " + err.Error())
 	}
@@ -351,7 +364,7 @@ func vfC29Run(v *vfT, c vfC29Case) {
 			if len(live) >= 5 {
 				continue
 			}
-			b := &vfC29Binding{ssrc: op.SSRC, pt: op.PT&0x1f + 96}
+			b := &vfC29Binding{ssrc: op.SSRC, pt: op.PT & 0x7f}
 			var free []string // ids of removed bindings that are not live again (ids stay distinct among live bindings)
 			for _, r := range removed {
 				inUse := false
@@ -376,7 +389,7 @@ func vfC29Run(v *vfT, c vfC29Case) {
 			b.writer = &vfC29Writer{id: b.id, fail: op.Fail, sh: shared}
 			b.ctx = &baseTrackLocalContext{
 				id: b.id, ssrc: SSRC(b.ssrc), writeStream: b.writer,
-				params: RTPParameters{Codecs: vfC29Codecs(op.CodecPos, b.pt)},
+				params: RTPParameters{Codecs: vfC29Codecs(trackCodec, op.CodecPos, b.pt)},
 			}
 			codec, err := track.Bind(b.ctx)
 			if err != nil {
@@ -391,6 +404,17 @@ func vfC29Run(v *vfT, c vfC29Case) {
 				// codec negotiation is not this property's subject: follow what Bind chose
 				v.Label("bind:accepted-without-codec")
 				b.pt = uint8(codec.PayloadType)
+			}
+			switch {
+			case b.pt == 0:
+				v.Label("bind:pt-0")
+			case b.pt < 96:
+				v.Label("bind:pt-static")
+			case b.pt == 127:
+				v.Label("bind:pt-127")
+			}
+			if b.ssrc == 0 || b.ssrc == 0xFFFFFFFF {
+				v.Label("bind:ssrc-0-or-max")
 			}
 			live = append(live, b)
 			if len(live) > maxLive {
@@ -601,6 +625,7 @@ func vfC29GenPkt(v *vfT) *vfC29Pkt {
 func vfC29Gen(v *vfT) vfC29Case {
 	n := rapid.IntRange(1, 40).Draw(v.R, "nops")
 	var c vfC29Case
+	c.Codec = rapid.IntRange(0, len(vfC29TrackCodecs)-1).Draw(v.R, "codec")
 	hooksLeft := rapid.SampledFrom([]int{0, 0, 1, 1, 2}).Draw(v.R, "hooks") // each hooked write costs the bounded wait
 	for i := 0; i < n; i++ {
 		var op vfC29Op
@@ -611,8 +636,15 @@ func vfC29Gen(v *vfT) vfC29Case {
 		op.Op = kind
 		switch kind {
 		case "bind":
-			op.SSRC = rapid.Uint32().Draw(v.R, "bssrc")
-			op.PT = uint8(rapid.IntRange(0, 31).Draw(v.R, "bpt"))
+			op.SSRC = rapid.SampledFrom([]uint32{0, 1, 0xFFFFFFFF, 0x80000000, 0x7FFFFFFF}).Draw(v.R, "bssrcEdge")
+			if rapid.IntRange(0, 2).Draw(v.R, "bssrcRand") != 0 {
+				op.SSRC = rapid.Uint32().Draw(v.R, "bssrc")
+			}
+			// negotiated payload type: static types and range ends as well as the dynamic range
+			op.PT = rapid.SampledFrom([]uint8{0, 0, 8, 9, 13, 96, 127, 127}).Draw(v.R, "bptEdge")
+			if rapid.Bool().Draw(v.R, "bptRand") {
+				op.PT = uint8(rapid.IntRange(96, 127).Draw(v.R, "bpt"))
+			}
 			op.CodecPos = rapid.IntRange(-1, 3).Draw(v.R, "codecpos")
 			if op.CodecPos == -1 && rapid.IntRange(0, 2).Draw(v.R, "keepabsent") != 0 {
 				op.CodecPos = 0
